@@ -61,8 +61,11 @@ SPEC = {
     "c19.is_valid_default": ([STR], "is_valid", R(B)),
     "c03.levels": ([NAT, B, B, NAT, L(CFROW)], "(cf_levels cf_row cf_score cf_lkey)", L(L(("proj", "cf_id", CFROW)))),
     "c11.calibrate": ([L(Z), L(B), Q], "calibrate", R(L(Q))),
+    "c02.split": ([L(Z), NAT], "bw_split", R(L(L(NAT)))),
+    "c02.plan": ([O(NAT), L(NAT)], "bw_subset_plan", R(L(O(NAT)))),
+    "c10.chunks": ([L(Z), L(Z), NAT], "pc_chunks_with_ids", L(L(Z))),
 }
-IMPORTS = "Model.Base Model.Tdc Model.Merge Model.Digest Model.PinTsv Model.Confidence Model.Calibrate"
+IMPORTS = "Model.Base Model.Tdc Model.Merge Model.Digest Model.PinTsv Model.Confidence Model.Calibrate Model.Brew Model.PinCols"
 
 
 class _Toks:
